@@ -218,6 +218,7 @@ Proof.
 Qed.
 
 (* ================================================================== QASM round trip *)
+Local Open Scope list_scope.
 Definition M_formals : list formal :=
   [mkF "q" FVar None; mkF "register_name" FKw (Some (VA ANone)); mkF "collapse" FKw (Some (VA (ABool false)));
    mkF "basis" FKw (Some (VA (AStr "Z"))); mkF "p0" FKw (Some (VA ANone)); mkF "p1" FKw (Some (VA ANone))].
@@ -313,4 +314,526 @@ Section Qasm.
       + unfold gate_equiv. rewrite Hcls, Hname. repeat split; auto. exists fs. split; assumption.
       + unfold is_M in *. rewrite Hcls, Hname. exact HnM.
   Qed.
+
+  (* ---------------------------------------------------------------- the reader on the writer's statements *)
+  Definition iota (k : nat) : list Z := map Z.of_nat (seq 0 k).
+  Definition creg_of (rq : string * list Z) : stmt := SCreg (fst rq) (Z.of_nat (length (snd rq))).
+  Definition meas_from (name : string) (i : nat) (qs : list Z) : list stmt :=
+    map (fun iq : nat * Z => SMeasure ("q", snd iq) name (Z.of_nat (fst iq))) (combine (seq i (length qs)) qs).
+  Definition meas_of (rq : string * list Z) : list stmt := meas_from (fst rq) 0 (snd rq).
+  Definition unfilled (rq : string * list Z) : string * list Z := (fst rq, iota (length (snd rq))).
+  Definition MG (rq : string * list Z) : gate := Mgate (snd rq) (fst rq).
+  Definition M1s (rq : string * list Z) : list gate := map (fun q => Mgate [q] (fst rq)) (snd rq).
+  Definition qreg_list (n : Z) : list Z := map (fun i => 0 + Z.of_nat i) (seq 0 (Z.to_nat n)).
+  Definition Q0 (n : Z) : list (string * list Z) := [("q", qreg_list n)].
+
+  Lemma nth_error_seq : forall k a i, (i < k)%nat -> nth_error (seq a k) i = Some (a + i)%nat.
+  Proof.
+    induction k as [|k IH]; intros a i Hi; [lia|]. destruct i; simpl; [f_equal; lia|].
+    rewrite IH by lia. f_equal. lia.
+  Qed.
+
+  Lemma get_qubit_Q0 : forall n C G q, 0 <= q < n -> get_qubit (mkRS n (Q0 n) C G) (qref q) = OK q.
+  Proof.
+    intros n C G q Hq. unfold get_qubit, qref, Q0. simpl.
+    destruct (q <? 0) eqn:E; [apply Z.ltb_lt in E; lia|].
+    unfold nthZ. rewrite E. unfold qreg_list.
+    rewrite nth_error_map, nth_error_seq by lia. simpl. f_equal. lia.
+  Qed.
+
+  Lemma map_fst_unfilled : forall l, map fst (map unfilled l) = map fst l.
+  Proof. induction l as [|x l IH]; simpl; [reflexivity|]. rewrite IH. reflexivity. Qed.
+
+  Lemma read_cregs : forall mt2 mt1 n Q G,
+    NoDup (map fst (mt1 ++ mt2)) ->
+    foldM (read_stmt rows bases specials) (map creg_of mt2) (mkRS n Q (map unfilled mt1) G)
+    = OK (mkRS n Q (map unfilled (mt1 ++ mt2)) G).
+  Proof.
+    induction mt2 as [|[name qs] mt2 IH]; intros mt1 n Q G Hnd; simpl.
+    - rewrite app_nil_r. reflexivity.
+    - destruct (Z.of_nat (length qs) <? 0) eqn:E; [apply Z.ltb_lt in E; lia|].
+      rewrite Nat2Z.id.
+      assert (Hno : lookup name (map unfilled mt1) = None).
+      { apply lookup_none_notin. rewrite map_fst_unfilled. rewrite map_app in Hnd. simpl in Hnd.
+        apply NoDup_remove_2 in Hnd. intro Hin. apply Hnd. apply in_or_app. left. exact Hin. }
+      rewrite dict_set_notin by exact Hno.
+      change ((map unfilled mt1 ++ [(name, map Z.of_nat (seq 0 (length qs)))])%list)
+        with ((map unfilled mt1 ++ map unfilled [(name, qs)])%list).
+      rewrite <- map_app. cbn [rbind].
+      rewrite IH.
+      + rewrite <- app_assoc. reflexivity.
+      + rewrite <- app_assoc. exact Hnd.
+  Qed.
+
+  Definition gate_ok (n : Z) (g : gate) : Prop :=
+    gate_fact g /\ check_qubits (gtargets g) (gcontrols g) = true /\ Forall (fun q => 0 <= q < n) (gqubits g).
+
+  Lemma read_gates : forall gs sts n C G,
+    Forall (gate_ok n) gs -> mapM (write_gate rows) gs = OK sts ->
+    exists gs', foldM (read_stmt rows bases specials) sts (mkRS n (Q0 n) C G) = OK (mkRS n (Q0 n) C (G ++ gs'))
+      /\ Forall2 gate_equiv gs gs' /\ Forall (fun g' => is_M g' = false) gs'.
+  Proof.
+    induction gs as [|g gs IH]; intros sts n C G Hok Hw; simpl in Hw.
+    - injection Hw as <-. exists []. simpl. rewrite app_nil_r. repeat split; constructor.
+    - apply rbind_ok in Hw. destruct Hw as (st & Hst & Hw).
+      apply rbind_ok in Hw. destruct Hw as (sts' & Hsts & Hw). injection Hw as <-.
+      inversion Hok as [|? ? [Hf [Hc Hr]] Hok']; subst.
+      destruct (gate_roundtrip g st (mkRS n (Q0 n) C G) Hf Hc Hst) as (l & fs & g' & Heq & Hrd & Hequiv & HnM).
+      { intros q Hq. apply get_qubit_Q0. rewrite Forall_forall in Hr. apply Hr, Hq. }
+      subst st. simpl. rewrite Hrd. simpl.
+      destruct (IH sts' n C (G ++ [g']) Hok' Hsts) as (gs' & Hfold & H2 & HM').
+      exists (g' :: gs'). rewrite Hfold. rewrite <- app_assoc. simpl.
+      repeat split; constructor; assumption.
+  Qed.
+
+  Lemma set_nth_app : forall A (x y : A) l r, set_nth (length l) x (l ++ y :: r) = (l ++ x :: r)%list.
+  Proof. induction l as [|a l IH]; intros r; simpl; [reflexivity|]. rewrite IH. reflexivity. Qed.
+
+  Lemma read_meas_reg : forall name qs done rest pre post n C' G i,
+    C' = (pre ++ (name, (done ++ rest)%list) :: post)%list ->
+    lookup name pre = None -> length done = i -> length rest = length qs ->
+    Forall (fun q => 0 <= q < n) qs ->
+    foldM (read_stmt rows bases specials) (meas_from name i qs) (mkRS n (Q0 n) C' G)
+    = OK (mkRS n (Q0 n) (pre ++ (name, (done ++ qs)%list) :: post)
+               (G ++ map (fun q => Mgate [q] name) qs)).
+  Proof.
+    induction qs as [|q qs IH]; intros done rest pre post n C' G i HC Hpre Hdone Hrest Hr; subst C'.
+    - destruct rest; [|discriminate]. simpl. rewrite !app_nil_r. reflexivity.
+    - destruct rest as [|y rest]; [discriminate|]. simpl in Hrest. injection Hrest as Hrest.
+      inversion Hr as [|? ? Hq Hr']; subst.
+      unfold meas_from. simpl.
+      rewrite (get_qubit_Q0 n _ G q Hq). simpl.
+      rewrite lookup_app_notin by exact Hpre. simpl. rewrite String.eqb_refl.
+      destruct (Z.of_nat (length done) <? 0) eqn:E0; [apply Z.ltb_lt in E0; lia|].
+      destruct (Z.of_nat (length (done ++ y :: rest)) <=? Z.of_nat (length done)) eqn:E1.
+      { apply Z.leb_le in E1. rewrite app_length in E1. simpl in E1. lia. }
+      rewrite m_of_ok by reflexivity. simpl.
+      rewrite Nat2Z.id, set_nth_app, dict_set_mid by exact Hpre.
+      change (seq (S (length done)) (length qs)) with (seq (S (length done)) (length qs)).
+      specialize (IH (done ++ [q])%list rest pre post n
+                     (pre ++ (name, ((done ++ [q]) ++ rest)%list) :: post)%list
+                     (G ++ [Mgate [q] name])%list (S (length done)) eq_refl Hpre).
+      rewrite <- app_assoc in IH. simpl in IH.
+      unfold meas_from in IH. rewrite IH.
+      + rewrite <- !app_assoc. reflexivity.
+      + rewrite app_length. simpl. lia.
+      + exact Hrest.
+      + exact Hr'.
+  Qed.
+
+  Lemma read_meas_all : forall mt2 mt1 n G,
+    NoDup (map fst (mt1 ++ mt2)) ->
+    Forall (fun rq => Forall (fun q => 0 <= q < n) (snd rq)) mt2 ->
+    foldM (read_stmt rows bases specials) (flat_map meas_of mt2) (mkRS n (Q0 n) (mt1 ++ map unfilled mt2) G)
+    = OK (mkRS n (Q0 n) (mt1 ++ mt2) (G ++ flat_map M1s mt2)).
+  Proof.
+    induction mt2 as [|[name qs] mt2 IH]; intros mt1 n G Hnd Hr.
+    - simpl. rewrite !app_nil_r. reflexivity.
+    - cbn [flat_map]. rewrite foldM_app. inversion Hr as [|? ? Hq Hr']; subst. simpl in Hq.
+      assert (Hno : lookup name mt1 = None).
+      { apply lookup_none_notin. rewrite map_app in Hnd. simpl in Hnd.
+        apply NoDup_remove_2 in Hnd. intro Hin. apply Hnd. apply in_or_app. left. exact Hin. }
+      change (meas_of (name, qs)) with (meas_from name 0 qs).
+      rewrite (read_meas_reg name qs [] (iota (length qs)) mt1 (map unfilled mt2) n
+                 (mt1 ++ map unfilled ((name, qs) :: mt2)) G 0%nat eq_refl Hno eq_refl).
+      + cbn [rbind app].
+        replace (mt1 ++ (name, qs) :: map unfilled mt2) with ((mt1 ++ [(name, qs)]) ++ map unfilled mt2)
+          by (rewrite <- app_assoc; reflexivity).
+        rewrite IH.
+        * rewrite <- !app_assoc. reflexivity.
+        * rewrite <- app_assoc. exact Hnd.
+        * exact Hr'.
+      + unfold iota. rewrite map_length, seq_length. reflexivity.
+      + exact Hq.
+  Qed.
+
+  (* ---------------------------------------------------------------- _merge_measurements *)
+  Lemma merge_nonM : forall gs cregs rest,
+    Forall (fun g => is_M g = false) gs ->
+    merge rows bases cregs (gs ++ rest) = rbind (merge rows bases cregs rest) (fun r => OK (gs ++ r)%list).
+  Proof.
+    induction gs as [|g gs IH]; intros cregs rest H; simpl.
+    - destruct (merge rows bases cregs rest); reflexivity.
+    - inversion H as [|? ? Hg H']; subst. rewrite Hg. rewrite IH by exact H'.
+      destruct (merge rows bases cregs rest); reflexivity.
+  Qed.
+
+  Lemma merge_drop : forall name l cregs rest,
+    lookup name cregs = None ->
+    merge rows bases cregs (map (fun q => Mgate [q] name) l ++ rest) = merge rows bases cregs rest.
+  Proof.
+    induction l as [|q l IH]; intros cregs rest H; simpl; [reflexivity|].
+    rewrite H. apply IH, H.
+  Qed.
+
+  Lemma merge_regs : forall mt,
+    NoDup (map fst mt) -> Forall (fun rq => snd rq <> [] /\ nodupZ (snd rq) = true) mt ->
+    merge rows bases mt (flat_map M1s mt) = OK (map MG mt).
+  Proof.
+    induction mt as [|[name qs] mt IH]; intros Hnd Hq; simpl; [reflexivity|].
+    inversion Hq as [|? ? [Hne Hndq] Hq']; subst. simpl in Hne, Hndq.
+    inversion Hnd as [|? ? Hnotin Hnd']; subst.
+    destruct qs as [|q qs]; [congruence|].
+    unfold M1s at 1. simpl. rewrite String.eqb_refl.
+    rewrite m_of_ok by exact Hndq. simpl.
+    rewrite merge_drop by (apply lookup_none_notin; exact Hnotin).
+    rewrite IH by assumption. reflexivity.
+  Qed.
+
+  (* ---------------------------------------------------------------- Circuit.add on the re-imported gate list *)
+  Lemma build_plain : forall gs n dm acc,
+    Forall (fun g => is_M g = false /\ Forall (fun q => q < n) (gtargets g)) gs ->
+    foldM (add rotation) gs (mkC n dm acc []) = OK (mkC n dm (acc ++ gs) []).
+  Proof.
+    induction gs as [|g gs IH]; intros n dm acc H; simpl.
+    - rewrite app_nil_r. reflexivity.
+    - inversion H as [|? ? [HnM Hr] H']; subst.
+      unfold add. rewrite HnM. simpl. unfold add_plain. simpl.
+      assert (E : existsb (fun q : Z => n <=? q) (gtargets g) = false).
+      { clear -Hr. induction Hr as [|q l Hq Hl IHl]; simpl; [reflexivity|].
+        rewrite IHl. destruct (n <=? q) eqn:E; [apply Z.leb_le in E; lia | reflexivity]. }
+      rewrite E. simpl. rewrite IH by exact H'. rewrite <- app_assoc. reflexivity.
+  Qed.
+
+  Lemma flat_map_seq_nth : forall A B (f : A -> list B) (l acc : list A) a,
+    length acc = a ->
+    flat_map (fun i => match nth_error (acc ++ l) i with Some m => f m | None => [] end) (seq a (length l))
+    = flat_map f l.
+  Proof.
+    induction l as [|x l IH]; intros acc a Ha; simpl; [reflexivity|].
+    rewrite nth_error_app2 by lia. rewrite Ha, Nat.sub_diag. simpl. f_equal.
+    replace (acc ++ x :: l) with ((acc ++ [x]) ++ l) by (rewrite <- app_assoc; reflexivity).
+    apply IH. rewrite app_length. simpl. lia.
+  Qed.
+
+  Lemma basis_gates_MG : forall rq, basis_gates rotation (MG rq) = [].
+  Proof.
+    intros [name qs]. unfold basis_gates, MG, Mgate. simpl.
+    destruct HM as [_ [_ HZ]].
+    induction qs as [|q qs IH]; simpl; [reflexivity|]. rewrite HZ. simpl. exact IH.
+  Qed.
+
+  Lemma reg_names_MG : forall n dm acc mt,
+    reg_names (mkC n dm (acc ++ map MG mt) (seq (length acc) (length mt))) = map fst mt.
+  Proof.
+    intros. unfold reg_names, nth_gate. simpl.
+    rewrite <- (map_length MG mt).
+    rewrite (flat_map_seq_nth gate string (fun m => match greg m with Some s => [s] | None => [] end)
+               (map MG mt) acc (length acc) eq_refl).
+    induction mt as [|[name qs] mt IH]; simpl; [reflexivity|]. rewrite IH. reflexivity.
+  Qed.
+
+  Lemma build_meas : forall mt2 mt1 n dm acc,
+    NoDup (map fst (mt1 ++ mt2)) ->
+    Forall (fun rq => Forall (fun q => q < n) (snd rq)) mt2 ->
+    foldM (add rotation) (map MG mt2) (mkC n dm (acc ++ map MG mt1) (seq (length acc) (length mt1)))
+    = OK (mkC n dm (acc ++ map MG (mt1 ++ mt2)) (seq (length acc) (length (mt1 ++ mt2)))).
+  Proof.
+    induction mt2 as [|[name qs] mt2 IH]; intros mt1 n dm acc Hnd Hr.
+    - simpl. rewrite app_nil_r. reflexivity.
+    - inversion Hr as [|? ? Hq Hr']; subst. simpl in Hq.
+      cbn [map foldM]. unfold add at 1.
+      change (is_M (MG (name, qs))) with true. cbn [negb].
+      assert (E : existsb (fun q : Z => n <=? q) (gtargets (MG (name, qs))) = false).
+      { simpl. clear -Hq. induction Hq as [|q l Hq Hl IHl]; simpl; [reflexivity|].
+        rewrite IHl. destruct (n <=? q) eqn:E; [apply Z.leb_le in E; lia | reflexivity]. }
+      cbn [cn]. rewrite E. rewrite basis_gates_MG. cbn [foldM rbind].
+      change (greg (MG (name, qs))) with (Some name).
+      rewrite reg_names_MG.
+      assert (Hmem : mem_str name (map fst mt1) = false).
+      { destruct (mem_str name (map fst mt1)) eqn:Em; [|reflexivity]. apply mem_str_In in Em.
+        rewrite map_app in Hnd. simpl in Hnd. apply NoDup_remove_2 in Hnd. exfalso. apply Hnd.
+        apply in_or_app. left. exact Em. }
+      rewrite Hmem. cbn [rbind cn cdm cqueue cmeas]. change (gcollapse (MG (name, qs))) with false. cbn iota.
+      rewrite app_length, map_length.
+      replace ((acc ++ map MG mt1) ++ [MG (name, qs)]) with (acc ++ map MG (mt1 ++ [(name, qs)]))
+        by (rewrite map_app, app_assoc; reflexivity).
+      replace (seq (length acc) (length mt1) ++ [(length acc + length mt1)%nat])
+        with (seq (length acc) (length (mt1 ++ [(name, qs)])))
+        by (rewrite app_length; simpl; rewrite seq_app; reflexivity).
+      rewrite IH.
+      + rewrite <- app_assoc. reflexivity.
+      + rewrite <- app_assoc. exact Hnd.
+      + exact Hr'.
+  Qed.
+
+  Lemma measurement_tuples_MG : forall n dm acc mt,
+    NoDup (map fst mt) ->
+    measurement_tuples (mkC n dm (acc ++ map MG mt) (seq (length acc) (length mt))) = mt.
+  Proof.
+    intros n dm acc mt Hnd. unfold measurement_tuples, nth_gate. simpl.
+    assert (G : forall (l : list gate) (acc : list gate) a d, length acc = a ->
+              fold_left (fun d i => match nth_error (acc ++ l) i with
+                                    | Some m => match greg m with Some s => dict_set s (gtargets m) d | None => d end
+                                    | None => d end) (seq a (length l)) d
+              = fold_left (fun d m => match greg m with Some s => dict_set s (gtargets m) d | None => d end) l d).
+    { induction l as [|x l IH]; intros acc0 a d Ha; simpl; [reflexivity|].
+      rewrite nth_error_app2 by lia. rewrite Ha, Nat.sub_diag. simpl.
+      replace (acc0 ++ x :: l) with ((acc0 ++ [x]) ++ l) by (rewrite <- app_assoc; reflexivity).
+      apply IH. rewrite app_length. simpl. lia. }
+    rewrite <- (map_length MG mt). rewrite (G (map MG mt) acc (length acc) [] eq_refl).
+    assert (G2 : forall mt2 mt1, NoDup (map fst (mt1 ++ mt2)) ->
+              fold_left (fun d m => match greg m with Some s => dict_set s (gtargets m) d | None => d end) (map MG mt2) mt1
+              = mt1 ++ mt2).
+    { induction mt2 as [|[name qs] mt2 IH]; intros mt1 Hn; simpl; [rewrite app_nil_r; reflexivity|].
+      rewrite dict_set_notin.
+      - rewrite IH; rewrite <- app_assoc; [reflexivity | exact Hn].
+      - apply lookup_none_notin. rewrite map_app in Hn. simpl in Hn. apply NoDup_remove_2 in Hn.
+        intro Hin. apply Hn. apply in_or_app. left. exact Hin. }
+    apply (G2 mt []). exact Hnd.
+  Qed.
+
+  (* ---------------------------------------------------------------- the theorem *)
+  Definition measured (c : circuit) : list gate :=
+    flat_map (fun i => match nth_gate (cqueue c) i with Some m => [m] | None => [] end) (cmeas c).
+  Definition reg_of (m : gate) : option string * list Z := (greg m, gtargets m).
+  Definition nonM (g : gate) : bool := negb (is_M g).
+
+  (* c is a well-formed circuit whose pending measurements are the registers mt, none collapsed *)
+  Record wf_for_qasm (c : circuit) (mt : list (string * list Z)) : Prop := {
+    wf_n : 0 <= cn c;
+    wf_gates : Forall (gate_ok (cn c)) (filter nonM (cqueue c));
+    wf_nocollapse : filter is_M (cqueue c) = measured c;
+    wf_regs : map reg_of (measured c) = map (fun rq => (Some (fst rq), snd rq)) mt;
+    wf_names : NoDup (map fst mt);
+    wf_mq : Forall (fun rq => snd rq <> [] /\ nodupZ (snd rq) = true /\ Forall (fun q => 0 <= q < cn c) (snd rq)) mt
+  }.
+
+  Definition mstep (d : list (string * list Z)) (m : gate) : list (string * list Z) :=
+    match greg m with Some s => dict_set s (gtargets m) d | None => d end.
+
+  Lemma measurement_tuples_measured : forall c, measurement_tuples c = fold_left mstep (measured c) [].
+  Proof.
+    intros c. unfold measurement_tuples, measured. generalize (@nil (string * list Z)).
+    induction (cmeas c) as [|i l IH]; intros d; simpl; [reflexivity|].
+    rewrite fold_left_app. rewrite <- IH. destruct (nth_gate (cqueue c) i); reflexivity.
+  Qed.
+
+  Lemma measurement_tuples_wf : forall c mt, wf_for_qasm c mt -> measurement_tuples c = mt.
+  Proof.
+    intros c mt W. rewrite measurement_tuples_measured.
+    assert (G : forall ms mt2 mt1, map reg_of ms = map (fun rq => (Some (fst rq), snd rq)) mt2 ->
+              NoDup (map fst (mt1 ++ mt2)) -> fold_left mstep ms mt1 = mt1 ++ mt2).
+    { induction ms as [|m ms IH]; intros [|[name qs] mt2] mt1 He Hn; simpl in He; try discriminate.
+      - simpl. rewrite app_nil_r. reflexivity.
+      - unfold reg_of in He at 1. injection He as Hg Ht He. simpl in Hg, Ht. simpl.
+        unfold mstep at 2. rewrite Hg, Ht. rewrite dict_set_notin.
+        + rewrite (IH mt2 (mt1 ++ [(name, qs)]) He); rewrite <- app_assoc; [reflexivity | exact Hn].
+        + apply lookup_none_notin. rewrite map_app in Hn. simpl in Hn. apply NoDup_remove_2 in Hn.
+          intro Hin. apply Hn. apply in_or_app. left. exact Hin. }
+    apply (G (measured c) mt []); [apply (wf_regs c mt W) | apply (wf_names c mt W)].
+  Qed.
+
+  Lemma mapM_cregs : forall mt cregs,
+    mapM (fun rq : string * list Z => b <- py_islower (fst rq);
+            if b then OK (SCreg (fst rq) (Z.of_nat (length (snd rq)))) else Err ENameError) mt = OK cregs ->
+    cregs = map creg_of mt.
+  Proof.
+    induction mt as [|rq mt IH]; intros cregs H; simpl in H.
+    - injection H as <-. reflexivity.
+    - apply rbind_ok in H. destruct H as (st & Hst & H).
+      apply rbind_ok in H. destruct H as (rest & Hrest & H). injection H as <-.
+      apply rbind_ok in Hst. destruct Hst as (b & _ & Hb). destruct b; [|discriminate].
+      injection Hb as <-. simpl. f_equal. apply IH, Hrest.
+  Qed.
+
+  Theorem qasm_roundtrip_main : forall c mt s,
+    wf_for_qasm c mt -> write rows c = OK s ->
+    exists c' gs', read rows bases specials rotation s = OK c' /\ cn c' = cn c
+      /\ cqueue c' = gs' ++ map MG mt /\ cmeas c' = seq (length gs') (length mt)
+      /\ Forall2 gate_equiv (filter nonM (cqueue c)) gs' /\ Forall (fun g => is_M g = false) gs'
+      /\ measurement_tuples c' = measurement_tuples c.
+  Proof.
+    intros c mt s W Hw. unfold write in Hw.
+    rewrite (measurement_tuples_wf c mt W) in Hw.
+    apply rbind_ok in Hw. destruct Hw as (cregs & Hcregs & Hw).
+    apply rbind_ok in Hw. destruct Hw as (gs & Hgs & Hw). injection Hw as <-.
+    apply mapM_cregs in Hcregs. subst cregs.
+    change (filter (fun g : gate => negb (is_M g)) (cqueue c)) with (filter nonM (cqueue c)) in Hgs.
+    set (n := cn c) in *.
+    assert (Hn : 0 <= n) by apply (wf_n c mt W).
+    pose proof (wf_gates c mt W) as Hok. fold n in Hok.
+    pose proof (wf_mq c mt W) as Hmq. fold n in Hmq.
+    pose proof (wf_names c mt W) as Hnd.
+    destruct (read_gates (filter nonM (cqueue c)) gs n (map unfilled mt) [] Hok Hgs) as (gs' & Hrg & H2 & HnM).
+    assert (Htargets : Forall (fun g => is_M g = false /\ Forall (fun q => q < n) (gtargets g)) gs').
+    { clear -H2 HnM Hok. revert HnM Hok. induction H2 as [|g g' l l' He Hl IH]; intros HnM Hok; constructor.
+      - inversion HnM; subst. inversion Hok as [|? ? [_ [_ Hr]] ?]; subst. split; [assumption|].
+        destruct He as (_ & Ht & _). rewrite Ht. unfold gqubits in Hr. apply Forall_app in Hr.
+        destruct Hr as [_ Hr]. eapply Forall_impl; [|exact Hr]. simpl. intros; lia.
+      - inversion HnM; subst. inversion Hok; subst. apply IH; assumption. }
+    exists (mkC n false (gs' ++ map MG mt) (seq (length gs') (length mt))), gs'.
+    split.
+    - unfold read. cbn [foldM]. unfold read_stmt at 1.
+      destruct (n <? 0) eqn:E; [apply Z.ltb_lt in E; lia|].
+      cbn [rbind s_n s_q s_c s_gates dict_set]. change (0 + n) with n.
+      change [("q", map (fun i : nat => 0 + Z.of_nat i) (seq 0 (Z.to_nat n)))] with (Q0 n).
+      rewrite foldM_app.
+      change (@nil (string * list Z)) with (map unfilled []) at 1.
+      rewrite (read_cregs mt [] n (Q0 n) []) by exact Hnd.
+      cbn [rbind app]. rewrite foldM_app. rewrite Hrg. cbn [rbind app].
+      change (flat_map (fun rq : string * list Z =>
+                 map (fun iq : nat * Z => SMeasure ("q", snd iq) (fst rq) (Z.of_nat (fst iq)))
+                     (combine (seq 0 (length (snd rq))) (snd rq))) mt) with (flat_map meas_of mt).
+      assert (HR : Forall (fun rq : string * list Z => Forall (fun q => 0 <= q < n) (snd rq)) mt).
+      { eapply Forall_impl; [|exact Hmq]. intros rq (_ & _ & Hr). exact Hr. }
+      pose proof (read_meas_all mt [] n gs' Hnd HR) as Hm. cbn [app] in Hm. rewrite Hm. clear Hm.
+      cbn [rbind app s_c s_gates s_n].
+      rewrite merge_nonM by exact HnM.
+      rewrite merge_regs.
+      + cbn [rbind]. unfold build. rewrite foldM_app. unfold cinit.
+        rewrite (build_plain gs' n false [] Htargets). cbn [rbind app].
+        pose proof (build_meas mt [] n false gs') as Hb. cbn [map app length seq] in Hb.
+        rewrite app_nil_r in Hb. apply Hb; [exact Hnd|].
+        eapply Forall_impl; [|exact Hmq]. intros rq (_ & _ & Hr). eapply Forall_impl; [|exact Hr].
+        simpl. intros; lia.
+      + exact Hnd.
+      + eapply Forall_impl; [|exact Hmq]. intros rq (Ha & Hb & _). split; assumption.
+    - repeat split; try assumption; try reflexivity.
+      rewrite (measurement_tuples_wf c mt W). apply measurement_tuples_MG. exact Hnd.
+  Qed.
 End Qasm.
+
+(* ------------------------------------------------------------------ from the boolean table checks to gate_fact *)
+Lemma find_row_name : forall n rows r, find_row n rows = Some r -> rname r = n.
+Proof.
+  induction rows as [|r0 rows IH]; intros r H; simpl in H; [discriminate|].
+  destruct (String.eqb n (rname r0)) eqn:E; [|apply IH, H].
+  injection H as <-. apply String.eqb_eq in E. symmetry. exact E.
+Qed.
+Lemma find_row_In : forall n rows r, find_row n rows = Some r -> In r rows.
+Proof.
+  induction rows as [|r0 rows IH]; intros r H; simpl in H; [discriminate|].
+  destruct (String.eqb n (rname r0)); [injection H as <-; left; reflexivity | right; apply IH, H].
+Qed.
+
+(* what the per-class theorems generated over the regenerated tables establish for a labelled class *)
+Definition class_fact (rows : list row) (bases : list string) (specials : list (string * string)) (r : row) : Prop :=
+  label_resolves rows specials r
+  /\ (star_shape r = true -> star_row r)
+  /\ (star_shape r = false ->
+      std_ctor bases r (length (rcontrols r)) (length (rcontrols r) + length (rtargets r)) (length (rparams r))).
+
+(* checkable condition on a gate: its class has a label that passes the table check and the gate has the
+   numbers of controls / targets / parameters of its class *)
+Definition gate_check (rows : list row) (specials : list (string * string)) (g : gate) : bool :=
+  match find_row (gcls g) rows with
+  | Some r =>
+      label_row_ok rows specials r && negb (is_M g)
+      && (if star_shape r
+          then Nat.eqb (length (gcontrols g)) 0 && Nat.eqb (length (gparams g)) 0
+          else Nat.eqb (length (gcontrols g)) (length (rcontrols r))
+               && Nat.eqb (length (gtargets g)) (length (rtargets r))
+               && Nat.eqb (length (gparams g)) (length (rparams r)))
+  | None => false
+  end.
+
+Lemma gate_fact_of_check : forall rows bases specials,
+  (forall r, In r rows -> label_row_ok rows specials r = true -> class_fact rows bases specials r) ->
+  forall g, gate_check rows specials g = true -> gate_fact rows bases specials g.
+Proof.
+  intros rows bases specials Hall g Hc. unfold gate_check in Hc.
+  destruct (find_row (gcls g) rows) as [r|] eqn:Hr; [|discriminate].
+  apply andb_true_iff in Hc. destruct Hc as [Hc Hshape]. apply andb_true_iff in Hc. destruct Hc as [Hl HnM].
+  destruct (Hall r (find_row_In _ _ _ Hr) Hl) as (Hres & Hstar & Hstd).
+  unfold label_resolves in Hres. unfold label_row_ok in Hl.
+  destruct (rlabel r) as [l|] eqn:El; [|discriminate].
+  apply andb_true_iff in Hl. destruct Hl as [Hl _]. apply andb_true_iff in Hl. destruct Hl as [Hl Hpar].
+  exists r, l. split; [exact Hr|]. split; [exact El|]. split; [exact Hres|].
+  apply negb_true_iff in HnM.
+  destruct (star_shape r) eqn:Es.
+  - apply andb_true_iff in Hshape. destruct Hshape as [H1 H2].
+    apply Nat.eqb_eq in H1. apply Nat.eqb_eq in H2.
+    split; [rewrite H1, H2; apply star_row_std; apply Hstar; reflexivity|].
+    split; [right; destruct (gparams g); [reflexivity | discriminate H2]|].
+    split; [apply (find_row_name _ _ _ Hr) | exact HnM].
+  - apply andb_true_iff in Hshape. destruct Hshape as [H12 H3]. apply andb_true_iff in H12. destruct H12 as [H1 H2].
+    apply Nat.eqb_eq in H1. apply Nat.eqb_eq in H2. apply Nat.eqb_eq in H3.
+    split; [rewrite H1, H2, H3; apply Hstd; reflexivity|].
+    split.
+    + apply orb_true_iff in Hpar. destruct Hpar as [Hp|Hp]; [left; exact Hp|].
+      right. apply Nat.eqb_eq in Hp. rewrite Hp in H3. destruct (gparams g); [reflexivity | discriminate H3].
+    + split; [apply (find_row_name _ _ _ Hr) | exact HnM].
+Qed.
+
+(* well-formedness of a circuit for the QASM theorem, with checkable conditions only *)
+Record qasm_exportable (rows : list row) (specials : list (string * string)) (c : circuit)
+       (mt : list (string * list Z)) : Prop := {
+  qe_n : 0 <= cn c;
+  qe_gates : Forall (fun g => gate_check rows specials g = true
+                              /\ check_qubits (gtargets g) (gcontrols g) = true
+                              /\ Forall (fun q => 0 <= q < cn c) (gqubits g)) (filter nonM (cqueue c));
+  qe_nocollapse : filter is_M (cqueue c) = measured c;
+  qe_regs : map reg_of (measured c) = map (fun rq => (Some (fst rq), snd rq)) mt;
+  qe_names : NoDup (map fst mt);
+  qe_mq : Forall (fun rq => snd rq <> [] /\ nodupZ (snd rq) = true /\ Forall (fun q => 0 <= q < cn c) (snd rq)) mt
+}.
+
+Theorem qasm_roundtrip_checked : forall rows bases specials rotation,
+  M_tables_ok rows bases rotation ->
+  (forall r, In r rows -> label_row_ok rows specials r = true -> class_fact rows bases specials r) ->
+  forall c mt s, qasm_exportable rows specials c mt -> write rows c = OK s ->
+  exists c' gs', read rows bases specials rotation s = OK c' /\ cn c' = cn c
+    /\ cqueue c' = gs' ++ map MG mt /\ cmeas c' = seq (length gs') (length mt)
+    /\ Forall2 gate_equiv (filter nonM (cqueue c)) gs' /\ Forall (fun g => is_M g = false) gs'
+    /\ measurement_tuples c' = measurement_tuples c.
+Proof.
+  intros rows bases specials rotation HM Hall c mt s E Hw.
+  apply (qasm_roundtrip_main rows bases specials rotation HM c mt s); [|exact Hw].
+  destruct E as [En Eg Enc Er Enm Emq].
+  constructor; try assumption.
+  eapply Forall_impl; [|exact Eg]. intros g (Hc & Hq & Hr). split; [|split; assumption].
+  apply (gate_fact_of_check rows bases specials Hall g Hc).
+Qed.
+
+(* ================================================================== results *)
+Section ResultProofs.
+  Variables (St Pr Sa Fr : Type).
+  Variable draw : Pr -> Z -> Sa.
+  Variable freq_of : Sa -> Fr.       (* backend.calculate_frequencies: frequencies are a function of the samples *)
+
+  (* what r.frequencies() returns without drawing anything new *)
+  Definition obs_freq (r : mo Pr Sa Fr) : option Fr :=
+    match mo_freq _ _ _ r with
+    | Some f => Some f
+    | None => option_map freq_of (mo_samples _ _ _ r)
+    end.
+  (* invariant of real objects: cached frequencies agree with the samples when both exist *)
+  Definition mo_consistent (r : mo Pr Sa Fr) : Prop :=
+    forall s f, mo_samples _ _ _ r = Some s -> mo_freq _ _ _ r = Some f -> f = freq_of s.
+
+  Lemma mo_roundtrip : forall r : mo Pr Sa Fr,
+    mo_consistent r ->
+    (mo_freq _ _ _ r = None \/ exists s, mo_samples _ _ _ r = Some s) ->
+    let r' := mo_from_dict _ _ _ (mo_to_dict _ _ _ r) in
+    mo_meas _ _ _ r' = mo_meas _ _ _ r /\ mo_nshots _ _ _ r' = mo_nshots _ _ _ r
+    /\ mo_samples _ _ _ r' = mo_samples _ _ _ r
+    /\ (mo_samples _ _ _ r = None -> mo_probs _ _ _ r' = mo_probs _ _ _ r)
+    /\ obs_freq r' = obs_freq r.
+  Proof.
+    intros [ms p s n f] Hc Hor. unfold mo_consistent in Hc. simpl in *.
+    unfold mo_from_dict, mo_to_dict, obs_freq. simpl.
+    repeat split.
+    - intros ->. destruct p; reflexivity.
+    - destruct f as [f|]; [|reflexivity].
+      destruct Hor as [Hf|[s0 Hs]]; [discriminate|]. subst s. simpl. f_equal. symmetry. apply Hc; reflexivity.
+  Qed.
+
+  Lemma mo_roundtrip_refuted_witness : forall (p : Pr) (f : Fr),
+    let r := mkMO Pr Sa Fr [] (Some p) None 10 (Some f) in
+    obs_freq r = Some f /\ obs_freq (mo_from_dict _ _ _ (mo_to_dict _ _ _ r)) = None.
+  Proof. intros. split; reflexivity. Qed.
+
+  Lemma cr_roundtrip : forall (r : cr St Pr Sa Fr) r',
+    cr_from_dict St Pr Sa Fr draw (cr_to_dict St Pr Sa Fr r) = Some r' ->
+    cr_state _ _ _ _ r' = cr_state _ _ _ _ r
+    /\ mo_meas _ _ _ (cr_mo _ _ _ _ r') = mo_meas _ _ _ (cr_mo _ _ _ _ r)
+    /\ mo_nshots _ _ _ (cr_mo _ _ _ _ r') = mo_nshots _ _ _ (cr_mo _ _ _ _ r)
+    /\ (forall s, mo_samples _ _ _ (cr_mo _ _ _ _ r) = Some s -> mo_samples _ _ _ (cr_mo _ _ _ _ r') = Some s).
+  Proof.
+    intros [st [ms p s n f]] r' H. unfold cr_from_dict, cr_to_dict, mo_from_dict, mo_to_dict in H. simpl in H.
+    destruct s as [s|]; simpl in H.
+    - destruct p; simpl in H; injection H as <-; simpl; repeat split; auto.
+    - destruct p as [p|]; simpl in H; [|discriminate]. injection H as <-. simpl. repeat split; auto. discriminate.
+  Qed.
+End ResultProofs.
